@@ -90,7 +90,7 @@ class PredicateOperation(AbstractDenseTimeOnlineOperation):
 
             if rval != prev or i == len(input_list) - 1:
                 sample_result.append([in_sample[0], out_val])
-            prev = out_val
+            prev = rval
 
         return sample_result
 
@@ -123,6 +123,6 @@ class PredicateOperation(AbstractDenseTimeOnlineOperation):
 
             if rval != prev or i == len(input_list) - 1:
                 sample_result.append([in_sample[0], out_val])
-            prev = out_val
+            prev = rval
 
         return sample_result
